@@ -2,7 +2,8 @@
 import dns
 import pktgen
 
-SLICE = "BUILD C (build_bytes_vec_compressed) and BUILDW C G / Q (write_compressed_to starting at a non-zero offset; Q = a writer whose write() accepts 1..5 bytes per call)"
+SLICE = "TABLE (the compression table a compressed write ends with, through a cfg hook, against the model's table and against the message); BUILD C (build_bytes_vec_compressed) and BUILDW C G / Q (write_compressed_to starting at a non-zero offset; Q = a writer whose write() accepts 1..5 bytes per call)"
+USES_TABLE = True
 RULE = ("seeded packets with heavy suffix sharing + messages crossing 16 KiB + the 14-bit boundary catalogue + deep chains; every "
         "name occurrence of the output is located by a schema-aware walker driven by the description: it must decode (RFC 1035) to the "
         "intended name; every pointer must point strictly backwards, to an offset <= 16383 measured from the first byte of the "
@@ -27,6 +28,12 @@ def cases(rng, tier):
         DESCS[c] = p
         START[c] = None
         out.append(c)
+        if k % 3 == 0 and len(t) < 40000:
+            # the compression table itself (cfg hook): every entry names labels that really begin at that offset, at most 16383
+            c = "TABLE " + t
+            DESCS[c] = p
+            START[c] = None
+            out.append(c)
         if k % 5 == 0 and len(t) < 20000:
             start = rng.choice([1, 2, 7, 300])
             c = "BUILDW C %s %x %s %s" % (rng.choice(["G", "G", "Q"]), start, (bytes([0xEE]) * rng.choice([0, start, start + 5])).hex() or "-", t)
@@ -155,10 +162,31 @@ def check(p, msg):
     return None
 
 
+def oracle_table(case, out):
+    if not out.startswith("OK "):
+        return "compressed serialisation failed: %r" % out[:200]
+    rows, hx = out[3:].split(" | ")
+    msg = bytes.fromhex(hx)
+    toks = rows.split()
+    for row in toks[1:]:
+        nm, pos = row.rsplit("@", 1)
+        pos = int(pos, 16)
+        nt = nm.split(",")
+        labels = [bytes.fromhex(x) if x != "-" else b"" for x in nt[1:]]
+        if pos > 0x3FFF:
+            return "the compression table holds offset %d (> 16383) for %r" % (pos, labels)
+        got = dns.rfc_decode_name(msg, pos)
+        if got is None or got[0] != labels:
+            return "the compression table says %r begins at offset %d, the message has %r there" % (labels, pos, got and got[0])
+    return None
+
+
 def oracle(case, out):
     p = DESCS[case]
     if out.startswith("PANIC") or out in ("HANG", "CRASH"):
         return "%s on %s" % (out, case[:200])
+    if case.startswith("TABLE"):
+        return oracle_table(case, out)
     if not out.startswith("OK "):
         return "compressed serialisation failed: %r" % out[:200]
     if START[case] is None:
